@@ -213,14 +213,20 @@ func init() {
 			}
 			runs = append(runs, map[string]any{"run": name, "max_open_connections": maxOpen, "max_goroutines": maxGor, "dials": o.Dials, "after_settle": o.After})
 		}
+		slow, sexecs, sex := c18SlowPeers(rep, pool)
+		if !sex {
+			exhaustive = false
+		}
+		rep.Cov["slow_peers"] = slow
+		rep.Cov["schedules"] = sexecs
 		rep.Cov["states"] = st.States
-		rep.Cov["transitions"] = st.Transitions + len(jobs)
-		rep.Cov["traces_validated_against_impl"] = st.Transitions + len(jobs)
+		rep.Cov["transitions"] = st.Transitions + len(jobs) + sexecs
+		rep.Cov["traces_validated_against_impl"] = st.Transitions + len(jobs) + sexecs
 		rep.Cov["samples"] = append(st.Samples, map[string]any{"long_runs": runs})
 		rep.Cov["exhaustive"] = exhaustive
 		rep.Cov["depth_completed"] = st.MaxDepthDone
 		rep.Cov["long_runs"] = runs
-		rep.Cov["method"] = "all histories of updates (one and two rating groups) and recharges over two subscribers up to the depth bound, with the exact resource vector (open / half-closed modelled connections, goroutines of the world) compared before and after every repeated request at quiescence; plus long runs of N back-to-back (and spaced) updates whose resource series must not exceed what the first three requests per subscriber needed"
+		rep.Cov["method"] = "all histories of updates (one and two rating groups) and recharges over two subscribers up to the depth bound, with the exact resource vector (open / half-closed modelled connections, goroutines of the world) compared before and after every repeated request at quiescence; plus long runs of N back-to-back (and spaced) updates whose resource series must not exceed what the first three requests per subscriber needed; plus (slow_peers) every placement of up to k delays (3 s and 6 s of virtual time) on the delivery of a Diameter message in either direction while two updates are processed, with the resource vector compared one minute after they completed"
 		rep.Assumptions = append(rep.Assumptions, "connections are those of the modelled network (every Dial/Close of go-diameter goes through it); goroutines are counted from runtime.Stack restricted to the world's synctest bubble")
 		return rep.Finish()
 	}
